@@ -29,7 +29,7 @@ structure CloneMaps where
   tbase : Nat
 
 def CloneMaps.ρ (m : CloneMaps) (y : Nat) : Nat := m.base + idxIn m.C y
-def CloneMaps.σ (m : CloneMaps) (r : Nat) : Nat := m.rbase + idxIn m.R r
+def CloneMaps.σ (m : CloneMaps) (r : Nat) : Nat := ownRec (m.rbase + idxIn m.R r)
 def CloneMaps.τ (m : CloneMaps) (r : Nat) : Nat := m.tbase + idxIn m.T r
 
 def cloneMaps (h : Heap) (C : List Nat) : CloneMaps :=
@@ -43,7 +43,7 @@ def mapNode (m : CloneMaps) (nd : Node) : Node :=
 def cloneRegion (h : Heap) (C : List Nat) : Heap :=
   let m := cloneMaps h C
   let inN (i : Nat) : Option Nat := if m.base ≤ i then C[i - m.base]? else none
-  let inR (i : Nat) : Option Nat := if m.rbase ≤ i then m.R[i - m.rbase]? else none
+  let inR (i : Nat) : Option Nat := if i % 2 = 0 ∧ m.rbase ≤ i / 2 then m.R[i / 2 - m.rbase]? else none
   let inT (i : Nat) : Option Nat := if m.tbase ≤ i then m.T[i - m.tbase]? else none
   { h with
     n := h.n + C.length
